@@ -238,11 +238,47 @@ fn verif_witness_search_no_crash() {
       inputs.push((format!("the accepted program with its token #{k} `{}` doubled", tokens[k].trim()), t.concat()));
     }
   }
-  let std_sources = {
-    let heap = &mut Heap::new();
-    samlang_parser::builtin_std_raw_sources(heap).into_iter().map(|(m, s)| (m.pretty_print(heap), s)).collect::<Vec<_>>()
-  };
-  let _ = std_sources;
+  // programs that once crashed a phase, and shapes next to them
+  let wrap = |body: &str| format!("class Opt(None, Some(int)) {{}}\nclass P(val a: int, val b: int) {{}}\nclass Main {{\n  function f(p: P, o: Opt, a: int, b: int): int = {body}\n  function main(): unit = {{}}\n}}");
+  for body in [
+    "{ let x = (a + b,); 1 }",
+    "{ let x = (a,); 1 }",
+    "{ let x = (a, b,); 1 }",
+    "{ let x = (a,a,a,a,a,a,a,a,a,a,a,a,a,a,a,a,a,a,a,a,a,a,a,a); 1 }",
+    "{ let x = (1,1,1,1,1,1,1,1,1,1,1,1,1,1,1,1,1,1,1,1,1,1,1,1); 1 }",
+    "match p { (x, y) -> 1, (x, y, z) -> 2 }",
+    "match p { (x, y, z) -> 1, (x, y) -> 2 }",
+    "match p { (x) -> 1, (x, y) -> 2, (x, y, z) -> 3 }",
+    "match o { Some(x) -> 1, Some(x, y) -> 2, None -> 3 }",
+    "match o { Some(x, y) -> 1, Some(x) -> 2, None -> 3 }",
+    "match o { None(x) -> 1, Some -> 2 }",
+    "{ let (x, y) = 1; let g = () -> x; g() }",
+    "{ let (x, y) = a; let g = () -> x + y; g() }",
+    "{ let { a as x, c as y } = p; let g = () -> x + y; g() }",
+    "{ let Some(x) = a; let g = () -> x; g() }",
+    "{ let { q } = o; let g = (z) -> z + q; g(1) }",
+    "{ let g = (x, y) -> x + y; g(1) }",
+    "{ let g = () -> nope; g() }",
+    "match a { Some(x) -> x, None -> 0 }",
+    "match p { Some(x) -> x, None -> 0 }",
+    "if let Some(x) = p { x } else { 0 }",
+    "if let (x, y, z) = p { x } else { 0 }",
+  ] {
+    inputs.push((format!("a program with the function body `{body}`"), wrap(body)));
+  }
+  // a diagnostic on a long line of two-byte characters, in both alignments, so that any byte index used to cut the
+  // line for the code frame falls inside a character in one of them
+  for pad in ["", "x"] {
+    let long = "é".repeat(400);
+    inputs.push((
+      format!("a type error on a line of {} bytes of two-byte characters", 800 + pad.len()),
+      wrap(&format!("{{ let s = \"{pad}{long}\" + 1; 1 }}")),
+    ));
+    inputs.push((
+      format!("a syntax error after a comment of {} bytes of two-byte characters", 800 + pad.len()),
+      wrap(&format!("{{ /* {pad}{long} */ let = ; 1 }}")),
+    ));
+  }
   std::panic::set_hook(Box::new(|_| {}));
   let mut n = 0usize;
   for (what, text) in inputs.iter() {
@@ -253,16 +289,62 @@ fn verif_witness_search_no_crash() {
       for (m, s) in samlang_parser::builtin_std_raw_sources(heap) {
         sources.insert(m, s);
       }
-      compile_sources(heap, sources, vec![mod_ref], false).is_ok()
+      // the driver (parse, check, render for the terminal, compile) ..
+      let compiled = compile_sources(heap, sources.clone(), vec![mod_ref], false).is_ok();
+      // .. and the other renderer: every diagnostic in the IDE format
+      let mut error_set = samlang_errors::ErrorSet::new();
+      let mut parsed = HashMap::new();
+      for (m, s) in &sources {
+        parsed.insert(*m, samlang_parser::parse_source_module_from_text(s, *m, heap, &mut error_set));
+      }
+      let syntax_errors = error_set.has_errors();
+      let _ = samlang_checker::type_check_sources(&parsed, &mut error_set);
+      for e in error_set.errors() {
+        let _ = e.to_ide_format(heap, &sources);
+      }
+      (compiled, syntax_errors)
     });
     n += 1;
-    if let Err(e) = outcome {
-      let message = e.downcast_ref::<String>().cloned().or_else(|| e.downcast_ref::<&str>().map(|s| s.to_string())).unwrap_or_default();
-      println!("WITNESS: the compiler panicked ({}) on {what}: {}", message.replace('\n', " "), text.replace('\n', " "));
-      return;
+    match outcome {
+      Err(e) => {
+        let message = e.downcast_ref::<String>().cloned().or_else(|| e.downcast_ref::<&str>().map(|s| s.to_string())).unwrap_or_default();
+        println!("WITNESS: the compiler panicked ({}) on {what}: {}", message.replace('\n', " "), text.chars().take(700).collect::<String>().replace('\n', " "));
+        return;
+      }
+      Ok((compiled, syntax_errors)) => {
+        // a text that stops inside a class, or lost one of its brackets, cannot be parsed without skipping or inventing tokens
+        if !syntax_errors && open_brackets(text) != 0 {
+          println!("WITNESS: no syntax error is reported (compiled: {compiled}) for {what}, whose brackets do not balance: {}", text.chars().take(700).collect::<String>().replace('\n', " "));
+          return;
+        }
+      }
     }
   }
-  println!("WITNESS-SEARCH: no violating history found ({n} damaged versions of an accepted program went through the compiler without a panic)");
+  println!("WITNESS-SEARCH: no violating history found ({n} damaged or ill-formed programs went through parsing, checking, both renderers and the compiler without a panic; unbalanced ones got a syntax error)");
+}
+
+/// opening minus closing round / curly brackets outside string literals and comments (the accepted program has none
+/// inside its strings); non-zero means the text cannot be a complete program
+fn open_brackets(text: &str) -> i64 {
+  let mut depth = 0i64;
+  let mut in_string = false;
+  let mut previous = ' ';
+  for c in text.chars() {
+    if in_string {
+      if c == '"' && previous != '\\' {
+        in_string = false;
+      }
+    } else {
+      match c {
+        '"' => in_string = true,
+        '(' | '{' => depth += 1,
+        ')' | '}' => depth -= 1,
+        _ => {}
+      }
+    }
+    previous = c;
+  }
+  depth
 }
 
 // Witness search for unit `loopvars` (C01): self tail calls that permute or shift their parameters; the
